@@ -128,7 +128,7 @@ impl Host {
         let tk = self.tokio_turn();
         // the background-sync coin of the call (sync_probability knob): forced through the public field
         if let Some(bg) = op["bg"].as_bool() {
-            self.fs.lock().unwrap().sync_probability = if bg { 1.0 } else { 0.0 };
+            self.fs.lock().unwrap_or_else(|e| e.into_inner()).sync_probability = if bg { 1.0 } else { 0.0 };
         }
         match util::catch(|| self.exec_inner(op, tk)) {
             Ok(v) => v,
@@ -142,7 +142,7 @@ impl Host {
             for f in self.files.iter_mut() {
                 *f = None;
             }
-            self.fs.lock().unwrap().crash();
+            self.fs.lock().unwrap_or_else(|e| e.into_inner()).crash();
             let ps = str_list(&op["ps"]);
             return ok(view_paths(&ps));
         }
@@ -326,7 +326,7 @@ impl Host {
 
     /// State of the implementation through the verification hook, in the layout FsGen prints.
     fn state(&self) -> Value {
-        let fs = self.fs.lock().unwrap();
+        let fs = self.fs.lock().unwrap_or_else(|e| e.into_inner());
         let d = fs.verif_dump();
         let s = |p: &std::path::PathBuf| p.to_string_lossy().to_string();
         let mut pf: Vec<(String, Vec<u8>)> = d.persisted_files.iter().map(|(p, c)| (s(p), c.clone())).collect();
